@@ -26,7 +26,8 @@ ASSUMPTIONS = [
     "quadrature error (C13) does not leak in; model-relative sources on histogram fits are not generated (documented FIXME)",
 ]
 
-XY_COSTS = sorted(fs.CHI2_COV | fs.CHI2_POINTWISE | fs.CHI2_NOERR | fs.NLL_GAUSS | fs.NLLR_GAUSS | fs.NLL_POISSON | fs.NLLR_POISSON | fs.GA_COV | fs.GA_POINT)
+ALL_COSTS = sorted(fs.CHI2_COV | fs.CHI2_POINTWISE | fs.CHI2_NOERR | fs.NLL_GAUSS | fs.NLLR_GAUSS | fs.NLL_POISSON | fs.NLLR_POISSON | fs.GA_COV | fs.GA_POINT)
+XY_COSTS = [c for c in ALL_COSTS if c != "gauss_approximation_covariance_fast"]  # the xy table does not offer this identifier
 POISSON_LIKE = fs.NLL_POISSON | fs.NLLR_POISSON
 COUNT_DATA = POISSON_LIKE | fs.GA_COV | fs.GA_POINT
 
@@ -46,12 +47,12 @@ def strat(draw, tier="quick"):
         spec = draw(S.xy_spec(families=fams, costs=(cost,), n_sources=nsrc, poisson_data=pois, fixed=False,
                               y_scales=(None, None, None, 1e-3, 1e-5, 1e-7, 1e3, 1e5)))
     elif t == "indexed":
-        cost = draw(st.sampled_from(XY_COSTS))
+        cost = draw(st.sampled_from(ALL_COSTS))
         pois = cost in COUNT_DATA
         nsrc = (0, 0) if cost in POISSON_LIKE else ((0, 4) if cost in ("chi2",) or cost in fs.CHI2_NOERR else (1, 4))
         spec = draw(S.indexed_spec(costs=(cost,), n_sources=nsrc, poisson_data=pois, fixed=False, nonlinear=True))
     elif t == "hist":
-        cost = draw(st.sampled_from(XY_COSTS))
+        cost = draw(st.sampled_from(ALL_COSTS))
         nsrc = (0, 0) if cost in POISSON_LIKE else ((0, 3) if cost in ("chi2",) or cost in fs.CHI2_NOERR else (1, 3))
         spec = draw(S.hist_spec(costs=(cost,), densities=("normal", "expon", "lin_density"), n_sources=nsrc, fixed=False))
     else:
